@@ -745,6 +745,131 @@ def _validated_input(ctx, rule):
     return c07.r1b_validate_final_value(ctx, rule)
 
 
+_SEQ_MUT = {'append', 'extend', 'insert', 'pop', 'remove', 'sort', 'reverse', 'clear'}
+
+
+def param_mutations(fn, pname):
+    """Sites in fn that modify (in place) the object bound to parameter `pname`, through it or a plain alias of it."""
+    names = {pname}
+    changed = True
+    while changed:
+        changed = False
+        for n in walk_local(fn):
+            if isinstance(n, ast.Assign) and isinstance(n.value, ast.Name) and n.value.id in names:
+                for t in n.targets:
+                    if isinstance(t, ast.Name) and t.id not in names:
+                        names.add(t.id)
+                        changed = True
+    out = []
+    for n in walk_local(fn):
+        if isinstance(n, ast.Subscript) and isinstance(n.ctx, (ast.Store, ast.Del)) and isinstance(n.value, ast.Name) and n.value.id in names:
+            out.append(n)
+        elif isinstance(n, ast.Call) and isinstance(n.func, ast.Attribute) and n.func.attr in _SEQ_MUT \
+                and isinstance(n.func.value, ast.Name) and n.func.value.id in names:
+            out.append(n)
+        elif isinstance(n, ast.AugAssign) and isinstance(n.target, ast.Name) and n.target.id in names:
+            out.append(n)
+    return out
+
+
+def r14_consumers_read_only(ctx, rule):
+    """Once the last detector has run, the section list is only read: the PRINCE tally and the base-structure builder get
+    the very list object the terminal counters were tallied from, so a consumer that edits it in place (seed C05-e merged
+    adjacent alpha sections for PRINCE) makes the base structure disagree with the counted segments."""
+    pq = PARSER + 'parse'
+    fn = ctx.fn(pq)
+    closure = ctx.resolver.closure(['trainer.py'])
+    calls = [c for c in calls_in(fn) if any(isinstance(a, ast.Name) and a.id == 'section_list' for a in c.args)]
+    last_det = max([c.lineno for c in calls if call_name(c) == 'other_detection'] or [0])
+    if not last_det:
+        ctx.unk(rule, pq, 'other_detection(section_list) not found in parse')
+        return
+    n = 0
+    bad = False
+    for c in calls:
+        if c.lineno <= last_det:
+            continue
+        tg = [t for t in ctx.resolver.resolve_call(pq, c, closure) if not t.startswith('ext:')]
+        if not tg:
+            ctx.unk(rule, pq, 'consumer %s of the section list cannot be resolved' % call_name(c))
+            bad = True
+            continue
+        for t in tg:
+            tfn = ctx.fn(t)
+            pos = [i for i, a in enumerate(c.args) if isinstance(a, ast.Name) and a.id == 'section_list'][0]
+            ps = params(tfn)
+            if pos >= len(ps):
+                continue
+            n += 1
+            ctx.stats['functions'].add(t)
+            muts = param_mutations(tfn, ps[pos])
+            if muts:
+                bad = True
+                ctx.bad(rule, t, 'consumer edits the section list in place: ' + U(muts[0])[:60],
+                        'parse() hands the same list object to every consumer after segmentation; the terminal counters were '
+                        'already tallied from it, so editing it changes the base structure (and later consumers) without '
+                        'changing those tallies', None, muts[0])
+    if ctx.floor(rule, pq, n, 2, 'consumers of the final section list') and not bad:
+        ctx.ok(rule, pq, 'the %d consumers of the final section list never modify it' % n)
+
+
+def r15_layout_siblings_agree(ctx, rule):
+    """Sibling keyboard tables agree on the column of every key they share in the same row.
+
+    is_next_on_keyboard() treats the list index of a key as its physical column. The number row (and its shifted symbols)
+    is physically the same row of keys on every layout, so a character listed in the same-named row of two layout tables
+    must have the same index in both; a disagreement means one of the tables is shifted against its letter rows, and that
+    layout then accepts non-touching keys as a walk (seed C05-f prepended a key to one layout's number row)."""
+    rel = DET + 'keyboard_walk.py'
+    m = ctx.repo.mod(rel)
+    layouts = {}
+    for lname, fn in m.funcs.items():
+        for n in walk_local(fn):
+            if isinstance(n, ast.Dict) and any(const(k) == 'name' for k in n.keys if k is not None):
+                rows = {}
+                nm = None
+                for k, v in zip(n.keys, n.values):
+                    if const(k) == 'name':
+                        nm = const(v)
+                    elif isinstance(const(k), str) and isinstance(v, ast.List) and all(isinstance(const(e), str) for e in v.elts):
+                        rows[const(k)] = [const(e) for e in v.elts]
+                if isinstance(nm, str) and rows:
+                    layouts[nm] = (rel + '::' + lname, n, rows)
+    if not ctx.floor(rule, rel, len(layouts), 2, 'keyboard layout tables'):
+        return
+    shared = 0
+    bad = False
+    names = sorted(layouts)
+    for i, a in enumerate(names):
+        for b in names[i + 1:]:
+            qa, na, ra = layouts[a]
+            qb, nb, rb = layouts[b]
+            for row in sorted(set(ra) & set(rb)):
+                for ch in ra[row]:
+                    if ch in rb[row]:
+                        shared += 1
+                        ia, ib = ra[row].index(ch), rb[row].index(ch)
+                        if ia != ib and not bad:
+                            bad = True
+                            ctx.bad(rule, qb, "key %r is column %d of %s on layout %s but column %d on layout %s" % (ch, ib, row, b, ia, a),
+                                    'the same physical key cannot be in two columns: one of the tables is shifted against its other '
+                                    'rows, so on that layout keys that do not touch are accepted as adjacent (and real walks are '
+                                    'missed)', {'row': row, a: ra[row], b: rb[row]}, nb)
+        # within one layout a key occurs once
+        q, n, rows = layouts[a]
+        seen = {}
+        for row, keys in rows.items():
+            for k in keys:
+                if k in seen and not bad:
+                    bad = True
+                    ctx.bad(rule, q, 'key %r listed twice on layout %s (%s and %s)' % (k, a, seen[k], row),
+                            'find_keyboard_row_column returns the first position only; the second listing is dead and its '
+                            'neighbours are never adjacent to it', None, n)
+                seen[k] = row
+    if ctx.floor(rule, rel, shared, 15, 'keys shared by two layouts in the same row') and not bad:
+        ctx.ok(rule, rel, '%d keys shared between layouts %s have identical columns; no key is listed twice' % (shared, names))
+
+
 def r13_memo(ctx, rule):
     from .common import memo_discipline
     memo_discipline(ctx, rule, ['trainer.py'], 'lib_trainer/pcfg_password_parser.py::PCFGPasswordParser.parse')
@@ -755,7 +880,8 @@ def rules(tier):
             ('C05.R5', r5_totality), ('C05.R6', r6_counter_pairing), ('C05.R7', r7_index_space), ('C05.R8', r8_constants),
             ('C05.R10', r10_keyboard_single_layout),
             ('C05.R11', r11_multiword_training_runs), ('C05.R12', _validated_input),
-            ('C05.R13', r13_memo)]
+            ('C05.R13', r13_memo), ('C05.R14', r14_consumers_read_only),
+            ('C05.R15', r15_layout_siblings_agree)]
 
 
 META = {
